@@ -526,14 +526,59 @@ func c02Order(c *Ctx) {
 		byIndex := false
 		instrs(fn, func(_ *ssa.BasicBlock, _ int, ins ssa.Instruction) {
 			if lk, ok := ins.(*ssa.Lookup); ok && strings.HasPrefix(lk.X.Type().Underlying().String(), "map[int]") {
-				if _, isPhi := stripConv(lk.Index).(*ssa.Phi); isPhi {
+				// the loop counter: a phi, or the incremented counter of a range loop
+				switch x := stripConv(lk.Index).(type) {
+				case *ssa.Phi:
 					byIndex = true
+				case *ssa.BinOp:
+					if _, isPhi := x.X.(*ssa.Phi); isPhi && x.Op == token.ADD {
+						byIndex = true
+					}
 				}
 			}
 		})
 		c.verdict(!mapRange && byIndex, "ChunkStream:rebuild-in-order", fn.Pos(), "the chunk list is rebuilt by looking up results[i] for i = 0..len-1", "the chunk list is rebuilt by ranging over the results map (random order) or not by job number")
 		// the job number increases by one per job and is what the worker records the row under
 		numOK := false
+		// the primitive: the store into the results map is keyed by the job's number - directly in
+		// the worker, or through a closure parameter that every call fills with the job's number
+		isNum := func(v ssa.Value) bool {
+			return hasOrigin(v, func(o string) bool { return strings.HasSuffix(o, ".num") })
+		}
+		for _, f := range withClosures(fn) {
+			instrs(f, func(_ *ssa.BasicBlock, _ int, ins ssa.Instruction) {
+				mu, ok := ins.(*ssa.MapUpdate)
+				if !ok || !strings.HasPrefix(mu.Map.Type().Underlying().String(), "map[int]") {
+					return
+				}
+				if isNum(mu.Key) {
+					numOK = true
+					return
+				}
+				if p, isParam := stripConv(mu.Key).(*ssa.Parameter); isParam {
+					idx := -1
+					for i, q := range p.Parent().Params {
+						if q == p {
+							idx = i
+						}
+					}
+					all, n := true, 0
+					for _, g := range withClosures(fn) {
+						for _, call := range calls(g, func(string) bool { return true }) {
+							if call.Common().StaticCallee() == p.Parent() && idx >= 0 && idx < len(call.Common().Args) {
+								n++
+								if !isNum(call.Common().Args[idx]) {
+									all = false
+								}
+							}
+						}
+					}
+					if all && n > 0 {
+						numOK = true
+					}
+				}
+			})
+		}
 		for _, w := range c.workerClosures(fn) {
 			for _, call := range calls(w, func(n string) bool { return strings.HasPrefix(n, "closure:ChunkStream") }) {
 				if hasOrigin(call.Common().Args[0], func(o string) bool { return strings.HasSuffix(o, ".num") }) {
